@@ -27,6 +27,7 @@ type Gen struct {
 }
 
 func (g *Gen) emit(line string) string {
+	g.out.Begin(line) // (if the code under test kills the process, the case that was running is the failing input)
 	a := g.e.exec(line)
 	g.out.Emit(line, a)
 	g.canon = append(g.canon, line)
